@@ -268,13 +268,13 @@ CLAIMS = {
         'every value its rules accept - type, min/max with exclusivity, minLength/maxLength in characters, precision, enum, const, nullable, '
         'whatever the spelling - is valid against the keywords emitted for it (type, minimum.., minLength/maxLength, multipleOf = 10^-precision, '
         'enum, nullable) under their JSON Schema / OpenAPI 3.0 meaning on the denoted values (C08_leaf_sound, through C01/C13); and for every '
-        'schema without references built from such nodes under arrays (items as anyOf, item counts, empty array closed) and objects '
+        'schema without references built from such nodes and from scalar nodes with an `or` rule over built-in types and rule-sets (anyOf) under arrays (items as anyOf, item counts, empty array closed) and objects '
         '(properties, required, additionalProperties false / any / a type name) every value the schema accepts, in particular its own '
         'example, is valid against the converted Schema Object (C08_tree_sound, C08_example_valid). The whole emitted Schema Object is '
         'compared with the model on scalar nodes at the edges of every rule and on random trees.',
    note='Trusted: Coq kernel; the validator (jsonschema 4.26, formats not enforced, 2000-digit decimal context) and the well-formedness rules in '
         'lib/oracles/oas_validate.py; the C01 oracle for "still accepted"; harness; `inst` (the values a schema accepts) is the documented meaning '
-        'of a JSight schema, not code of this library. Outside the model (validator only): `or`, type references and components, key shortcuts, '
+        'of a JSight schema, not code of this library. Outside the model (validator only): type references and components (also as `or` alternatives), key shortcuts, '
         'allOf, formats and patterns. Known finding F08b (allOf next to additionalProperties: false) is pinned by the existing tests and '
         'not repaired; F08c (multipleOf in float64) was found by this tie and repaired. No axioms.',
    technique='Coq soundness theorems of the schema->Schema Object translation (scalar nodes in full, trees without references) tied by correspondence + translation validation by an independent validator',
